@@ -467,3 +467,173 @@ class SubscriptionNamespaceRace(Obligation):
 
     def model_info(self, p, m, res):
         return {'class': 'namespace-race', 'schedule': [(e[1], e[2]) for e in p.log if e[0] == 'op']}
+
+
+# ---------------------------------------------------------------------------------------------------------
+# C07: a request handed to a subscription terminates - the caller's wrapper future and the real actor task
+# (the whole spawned block of SubscriptionActor::start incl. its deletion select!) run as two activities
+# ---------------------------------------------------------------------------------------------------------
+from models_async import ReceiverM
+
+
+class RequestTerminates(Obligation):
+    tier = 'T4'
+
+    def __init__(self, ctx, method, mkargs, topic_alive=None):
+        self.method, self.mkargs, self.topic_alive = method, mkargs, topic_alive
+        self.n_out = 0
+        self.id = 'C07.d-terminates-Subscription::%s' % method
+        self.desc = ('Subscription::%s awaited by a caller while the real subscription actor task (mailbox loop, expiry arm and deletion select!) runs beside it, '
+                     'interleaved at every shared operation: in every schedule the call returns; nobody is left waiting for something no one will signal' % method)
+        self.bounds = {'callers': 1, 'requests': 1, 'outstanding_before': 0, 'backlog_before': '<= 1', 'select! start index': '0 (thorough: all)', 'mailbox': 'never full', 'timers': 'never fire',
+                       'topic': 'alive or gone' if topic_alive is None else ('alive' if topic_alive else 'gone')}
+        self.max_paths = 100000
+        self.unroll = 8
+
+    def body(self, ip, p):
+        ctx = ip.ctx
+        install_tokens(ctx)
+        from props.C16 import default_reply
+        ctx.on_enqueue = default_reply              # the topic's answers (RemoveSubscription) arrive at once
+        p.timers_never_fire = True
+        p.signals_never_fire = True
+        p.deleted_by_oneshot = True
+        p.live_oneshots = True
+        p.select_in_order = not getattr(self, 'all_select_orders', False)
+        st = sym_actor(ctx, p, self.n_out, 1, deleted=False)
+        if self.topic_alive is not None:
+            p.assume(st.topic_alive == z3.BoolVal(self.topic_alive))
+        # the actor task: the async block spawned by SubscriptionActor::start, owning the actor and its mailbox
+        body_fn = None
+        for name, f in ctx.dump.functions.items():
+            if name.endswith('>::start::{closure#0}') and 'subscription_actor' in name:
+                body_fn = f
+        if body_fn is None:
+            raise Unsupported('actor task body not found')
+        body_fn.parse()
+        rx = ReceiverM([])
+        byname = {'receiver': rx, 'actor': st.cell.v}
+        nup = max(body_fn.upvar_names) + 1 if body_fn.upvar_names else 0
+        upvars = []
+        for i in range(nup):
+            nm = body_fn.upvar_names.get(i)
+            if nm not in byname:
+                raise Unsupported('actor task captures %r' % (nm,))
+            upvars.append(byname[nm])
+        task = Enum('coroutine:' + body_fn.name, 0, {}, upvars)
+        aip = Interp(ctx, p, unroll=8)
+        actor_act = Activity('actor', aip)
+        aip.activity = actor_act
+        actor_act.gen = future_activity(actor_act, Loc(Cell(task, 'actor-task')), max_polls=10)
+        p.live_mailbox = {'subscription': (rx, actor_act)}
+        p.responder_owners = [actor_act]
+        # the caller: Subscription::<method> on a handle to this subscription (same observer, same mailbox)
+        a = st.cell.v
+        order = ctx.src.struct_fields('SubscriptionActor')
+        obs_arc = a.fields[order.index('observer')]
+        default_sub = ctx.tok_kinds['Subscription']
+
+        def sub_pointee(ip_, tok):
+            v = default_sub(ip_, tok)
+            o = ctx.src.struct_fields('Subscription', 'subscriptions/subscription')
+            f2 = list(v.fields)
+            f2[o.index('observer')] = obs_arc
+            return Agg(v.name, f2)
+        ctx.tok_kinds['Subscription'] = sub_pointee
+        cip = Interp(ctx, p, unroll=8)
+        caller = Activity('caller', cip)
+        selfv = sub_pointee(cip, p.fresh('self_tok'))
+        args = [Ref(Loc(Cell(selfv, 'self')))] + self.mkargs(ctx, p)
+        coro = run_to_end(cip.call_fn(ctx.fn('Subscription', self.method), args))
+        cip.activity = caller
+        caller.gen = future_activity(caller, Loc(Cell(coro, 'call')), max_polls=10)
+        acts = [caller, actor_act]
+        prime(acts)
+        run_activities(p, acts)
+        ctx.tok_kinds['Subscription'] = default_sub
+        return {'st': st, 'caller': caller, 'actor': actor_act, 'rx': rx}
+
+    def post(self, ip, p, res):
+        c, a = res['caller'], res['actor']
+        out = [Claim('the call returns in every schedule (the caller is not left waiting)', c.state == 'done'),
+               Claim('the actor task is waiting for its next request, or has ended', a.state in ('parked', 'done')),
+               Claim('the request was taken from the mailbox', len(res['rx'].items) == 0)]
+        if c.state == 'done' and isinstance(c.result, Enum) and c.result.name == 'Result':
+            out.append(Cover('the call returns Ok', c.result.discr == 0))
+        if self.method == 'delete':
+            out.append(Cover('the actor task ended (deletion)', a.state == 'done'))
+        out.append(Cover('topic gone', z3.Not(res['st'].topic_alive)))
+        return out
+
+    def model_info(self, p, m, res):
+        return {'class': 'request-never-returns', 'topic_alive': model_value(m, res['st'].topic_alive) if res else None,
+                'schedule': [(e[1], e[2]) for e in p.log if e[0] == 'op']}
+
+
+class TopicRequestTerminates(Obligation):
+    tier = 'T4'
+
+    def __init__(self, ctx, method, mkargs):
+        self.method, self.mkargs = method, mkargs
+        self.id = 'C07.d-terminates-Topic::%s' % method
+        self.desc = ('Topic::%s awaited by a caller while the real topic actor task runs beside it, interleaved at every shared operation: in every schedule '
+                     'the call returns (subscriptions answer posts at once)' % method)
+        self.bounds = {'callers': 1, 'requests': 1, 'attached_subscriptions': '<= 2', 'mailbox': 'never full'}
+        self.max_paths = 100000
+        self.unroll = 8
+
+    def body(self, ip, p):
+        ctx = ip.ctx
+        install_tokens(ctx)
+        from props.C16 import default_reply
+        from props.C11 import sym_topic_actor
+        ctx.on_enqueue = default_reply
+        p.live_oneshots = True
+        p.select_in_order = True
+        cell, ents, dele, mstate, own, oname, other_u, reg = sym_topic_actor(ctx, p, 2)
+        body_fn = None
+        for name, f in ctx.dump.functions.items():
+            if name.endswith('>::start::{closure#0}') and 'topic_actor' in name:
+                body_fn = f
+        if body_fn is None:
+            raise Unsupported('topic actor task body not found')
+        body_fn.parse()
+        rx = ReceiverM([])
+        byname = {'receiver': rx, 'actor': cell.v}
+        nup = max(body_fn.upvar_names) + 1 if body_fn.upvar_names else 0
+        upvars = []
+        for i in range(nup):
+            nm = body_fn.upvar_names.get(i)
+            if nm not in byname:
+                raise Unsupported('topic actor task captures %r' % (nm,))
+            upvars.append(byname[nm])
+        task = Enum('coroutine:' + body_fn.name, 0, {}, upvars)
+        aip = Interp(ctx, p, unroll=8)
+        actor_act = Activity('actor', aip)
+        aip.activity = actor_act
+        actor_act.gen = future_activity(actor_act, Loc(Cell(task, 'actor-task')), max_polls=10)
+        p.live_mailbox = {'topic': (rx, actor_act)}
+        p.responder_owners = [actor_act]
+        cip = Interp(ctx, p, unroll=8)
+        caller = Activity('caller', cip)
+        selfv = ctx.tok_kinds['Topic'](cip, p.fresh('self_tok'))
+        args = [Ref(Loc(Cell(selfv, 'self')))] + self.mkargs(ctx, p)
+        coro = run_to_end(cip.call_fn(ctx.fn('Topic', self.method, hint='topics/topic.rs'), args))
+        cip.activity = caller
+        caller.gen = future_activity(caller, Loc(Cell(coro, 'call')), max_polls=10)
+        acts = [caller, actor_act]
+        prime(acts)
+        run_activities(p, acts)
+        return {'caller': caller, 'actor': actor_act, 'rx': rx}
+
+    def post(self, ip, p, res):
+        c, a = res['caller'], res['actor']
+        out = [Claim('the call returns in every schedule (the caller is not left waiting)', c.state == 'done'),
+               Claim('the actor task is waiting for its next request, or has ended', a.state in ('parked', 'done')),
+               Claim('the request was taken from the mailbox', len(res['rx'].items) == 0)]
+        if c.state == 'done' and isinstance(c.result, Enum) and c.result.name == 'Result':
+            out.append(Cover('the call returns Ok', c.result.discr == 0))
+        return out
+
+    def model_info(self, p, m, res):
+        return {'class': 'request-never-returns', 'schedule': [(e[1], e[2]) for e in p.log if e[0] == 'op']}
